@@ -99,7 +99,8 @@ def rule_tombstone_first(chk, rid):
         cfg = CFG(fn)
         layer_calls = [c for c in calls_in(fn) if call_recv(c) in ("self.overlay", "self.fallback")]
         if not layer_calls:
-            raise AnalysisError(f"OverlayStore.{m}: no layer calls")
+            chk.ob(rid, f"{ov.qual}.{m}", False, "the read consults neither layer", fn, mod, key=f"tombstone:{m}")
+            continue
         ok = True
         for c in layer_calls:
             lits = dominating_literals(cfg, cfg.node_of(c))
@@ -161,7 +162,9 @@ def rule_removal_masks(chk, rid):
     cfg = CFG(fn)
     adds = [c for c in calls_in(fn, tail="add") if call_recv(c) == "self.removed"]
     if not adds:
-        raise AnalysisError("OverlayStore.remove: tombstone add not found")
+        chk.ob(rid, f"{ov.qual}.remove", False, "remove() never adds a tombstone: a key living in the fall-back stays visible after removal",
+               fn, mod, key="tombstone-independent")
+        return
     an = cfg.node_of(adds[0])
     lits = dominating_literals(cfg, an)
     has_fb = any(txt == f"self.fallback.contains({kp})" and pol for _, txt, pol, _ in lits)
